@@ -21,6 +21,32 @@ SET_FUN = {"reverse": "reverse_set", "complement": "complement_set", "inverse": 
 ROT_SET = {1: "rotate_90_clockwise_set", 2: "rotate_180_clockwise_set", 3: "rotate_270_clockwise_set"}
 
 
+# the ways a finite collection of permutations can be handed to the set helpers (expectations never depend on it)
+COLLECTION_FORMS = [
+    ("list", list), ("iterator", iter), ("reversed-tuple", lambda S: tuple(reversed(S))),
+    ("generator", lambda S: (x for x in S)), ("set", set), ("frozenset", frozenset),
+    ("map-fresh-objects", lambda S: map(Perm, [tuple(x) for x in S])),
+    ("dict-keys", lambda S: dict.fromkeys(reversed(S)).keys()),
+]
+
+
+# operations offered by permutations and mesh patterns alike (second generation of images)
+SECOND_OPS = [("reverse", lambda o: o.reverse()), ("complement", lambda o: o.complement()), ("inverse", lambda o: o.inverse()),
+              ("rotate(1)", lambda o: o.rotate()), ("rotate(-6)", lambda o: o.rotate(-6)), ("rotate(7)", lambda o: o.rotate(7)),
+              ("flip_horizontal", lambda o: o.flip_horizontal())]
+# operations only permutations offer, and the aliases
+PERM_ONLY_OPS = [("flip_antidiagonal", lambda o: o.flip_antidiagonal()), ("reverse_complement", lambda o: o.reverse_complement()),
+                 ("flip_vertical", lambda o: o.flip_vertical()), ("flip_diagonal", lambda o: o.flip_diagonal()),
+                 ("rotate(-5)", lambda o: o.rotate(-5)), ("rotate(10)", lambda o: o.rotate(10))]
+
+
+def cli_texts(S):
+    zero = ["".join(str(v) for v in x) for x in S]
+    one = ["".join(str(v + 1) for v in x) for x in S]
+    return ["_".join(zero), ":".join(one), ", ".join(reversed(zero)), " ".join(one), "|".join(reversed(one)),
+            "\t".join(zero) + "\n", "Av(" + "; ".join(zero) + ")", "_" + "_and_".join(one) + "_"]
+
+
 def apply_obj(obj, op, k):
     if op == "rotate":
         return obj.rotate(k)
@@ -88,7 +114,8 @@ def replay_state(ctx, s):
         want_all = sorted(tuple(tuple(x) for x in T) for T in s["allsets"])
         want_min = tuple(tuple(x) for x in s["lexmin"])
         ctx.case(("sets", tuple(map(tuple, s["S"]))), nontrivial=len(want_all) > 1)
-        for form, mk in (("list", lambda: list(S)), ("iterator", lambda: iter(S)), ("reversed-tuple", lambda: tuple(reversed(S)))):
+        for form, mk in COLLECTION_FORMS:
+            mk = (lambda f: lambda: f(S))(mk)
             st, got = util.call(lambda: sy.all_symmetry_sets(mk()))
             if st == "raise" or sorted(tuple(tuple(x) for x in T) for T in got) != want_all:
                 ctx.violation(dict(case, form=form), "AllSymmetrySetsIsOrbit", want_all, got)
@@ -100,15 +127,16 @@ def replay_state(ctx, s):
             st, got = util.call(lambda: sy.lex_min([Perm(x) for x in T]))
             if st == "raise" or tuple(tuple(x) for x in got) != want_min:
                 ctx.violation(dict(case, member=T), "LexMinSameOnOrbit", want_min, got)
-        if s["antichain"]:
-            text = "_".join("".join(str(v) for v in x) for x in s["S"])
-            buf = io.StringIO()
-            with contextlib.redirect_stdout(buf):
-                st, _ = util.call(lambda: cli.get_parser().parse_args(["lexmin", text]).func(
-                    cli.get_parser().parse_args(["lexmin", text])))
+        if s["antichain"] and s["S"]:
+            # "the basis as a string where the permutations are separated by any token", 0-based or 1-based
             want = "_".join("".join(str(v) for v in x) for x in want_min)
-            if st == "raise" or buf.getvalue().strip() != want:
-                ctx.violation(dict(case, cli=text), "CliLexMin", want, buf.getvalue().strip())
+            for text in cli_texts(s["S"]):
+                buf = io.StringIO()
+                with contextlib.redirect_stdout(buf):
+                    st, _ = util.call(lambda: cli.get_parser().parse_args(["lexmin", text]).func(
+                        cli.get_parser().parse_args(["lexmin", text])))
+                if st == "raise" or buf.getvalue().strip() != want:
+                    ctx.violation(dict(case, cli=text), "CliLexMin", want, buf.getvalue().strip())
     elif mode == "equiv":
         q = s["S"][0]
         c = s["c"]
@@ -132,6 +160,23 @@ def replay_state(ctx, s):
                 P2 = M2.pattern
                 if Q2.contains(P2) != c:
                     ctx.violation(dict(case, q=q, sym=name, classical=True), "ContainmentEquivariant", c, Q2.contains(P2))
+        # history: the original objects once more, after their images were built and searched with
+        if Q.contains(M) != c:
+            ctx.violation(dict(case, q=q, sym="id, asked again after the images"), "ContainmentEquivariant", c, not c)
+        # an image of an image (the first image has been used in a search by now), rotating over the 8 x 7 combinations
+        sel = len(s["R"]) + sum((i + 2) * v for i, v in enumerate(q)) + 3 * sum(s["p"])
+        name, Q2, M2 = pairs[1 + sel % 8]
+        name2, g = SECOND_OPS[(sel // 8) % len(SECOND_OPS)]
+        st, got = util.call(lambda: g(Q2).contains(g(M2)))
+        if st == "raise" or got != c:
+            ctx.violation(dict(case, q=q, sym=name + " then " + name2), "ContainmentEquivariant", c, got)
+        if not s["R"]:
+            # the permutation-level operations on a pattern object whose search table is bound (it was searched above)
+            P = M.pattern
+            for name, g in PERM_ONLY_OPS:
+                st, got = util.call(lambda: g(Q).contains(g(P)))
+                if st == "raise" or got != c:
+                    ctx.violation(dict(case, q=q, sym=name, classical=True, used_before=True), "ContainmentEquivariant", c, got)
 
 
 def run(ctx):
@@ -197,6 +242,9 @@ def run(ctx):
             Q = Perm(q)
             events.append({"op": "Equiv", "p": list(p), "R": [list(c) for c in R], "q": list(q),
                            "before": Q.contains(M), "after": apply_obj(Q, name, k).contains(got)})
+    nbefore = len(events)
+    events.extend(hardening_events(ctx, quick))
+    ctx.note("hardening_events", len(events) - nbefore)
     tc = dict(base, Mode='"trace"', Shard=0, NShards=1)
     v = util.validate_trace(ctx, "Trace_C04", events, constants=tc, ntraces=n_ev)
     ctx.case(n=len(events))
@@ -208,6 +256,217 @@ def run(ctx):
                 "sets of the universe (one edge per object x operation x rotation count) and per-state orbit, "
                 "all-symmetry-sets and lex-min; each edge/state is replayed on the real objects; non-trivial = image "
                 "differs from the object (edges) or orbit larger than one (states); equivariance pairs non-trivial when contained")
+
+
+# ---- probes added in the hardening round ------------------------------------------------------------------
+def _std(seq):
+    order = sorted(range(len(seq)), key=lambda i: seq[i])
+    out = [0] * len(seq)
+    for r, i in enumerate(order):
+        out[i] = r
+    return tuple(out)
+
+
+def _jmesh(M):
+    return {"p": list(M.pattern), "R": [list(c) for c in sorted(M.shading)]}
+
+
+def _small_k(k):
+    """A rotation count in TLC's integer range that stands for k: rotating by a quarter turn four times is the
+    identity (Relations / DGroupLaws, checked by TLC), so k and k - 4m name the same rotation."""
+    return k if abs(k) < 2 ** 31 else k - 4 * (k // 4)
+
+
+BIG_COUNTS = [2 ** 31 - 1, -(2 ** 31) + 1, 10 ** 9 + 7, -(10 ** 9) - 6, 4 * 10 ** 8, 10 ** 18 + 1, -(10 ** 18) - 1, 2 ** 64 + 2,
+              -(2 ** 64) - 3, 2 ** 100, 123456789, -123456789, 1001, -1002, 4000003]
+
+
+def special_shading(rnd, n):
+    cells = [(x, y) for x in range(n + 1) for y in range(n + 1)]
+    style = rnd.choice(["none", "all", "corner", "border", "column", "row", "one", "sparse", "sparse", "dense"])
+    if style == "none":
+        return []
+    if style == "all":
+        return cells
+    if style == "corner":
+        return [rnd.choice([(0, 0), (0, n), (n, 0), (n, n)])]
+    if style == "border":
+        return [c for c in cells if (c[0] in (0, n) or c[1] in (0, n)) and rnd.random() < 0.7]
+    if style == "column":
+        x = rnd.choice([0, n, rnd.randint(0, n)])
+        return [(x, y) for y in range(n + 1)]
+    if style == "row":
+        y = rnd.choice([0, n, rnd.randint(0, n)])
+        return [(x, y) for x in range(n + 1)]
+    if style == "one":
+        return [rnd.choice(cells)]
+    dens = 0.15 if style == "sparse" else 0.7
+    return [c for c in cells if rnd.random() < dens]
+
+
+def hardening_events(ctx, quick):
+    rnd = util.rng(ctx, 404)
+    ev = []
+    scale = 1 if quick else 8
+    names_both = ["reverse", "complement", "inverse", "rotate", "rotate", "flip_horizontal", "flip_vertical", "flip_diagonal"]
+    names_perm = names_both + ["flip_antidiagonal", "reverse_complement"]
+    # -- (a) very large and negative rotation counts
+    for _ in range(40 * scale):
+        k = rnd.choice(BIG_COUNTS) + rnd.randint(-3, 3)
+        if abs(k) >= 2 ** 31 > abs(k) - 4:
+            k = rnd.choice(BIG_COUNTS[5:9])
+        p = util.rand_perm(rnd, rnd.randint(2, 9))
+        got = Perm(p).rotate(k)
+        ev.append({"op": "Sym", "name": "rotate", "k": _small_k(k), "p": list(p), "R": [], "resp": list(got), "resR": [], "count": str(k)})
+        n = rnd.randint(1, 4)
+        M = MeshPatt(Perm(util.rand_perm(rnd, n)), special_shading(rnd, n))
+        got = M.rotate(k)
+        ev.append({"op": "Sym", "name": "rotate", "k": _small_k(k), "p": list(M.pattern), "R": _jmesh(M)["R"],
+                   "resp": list(got.pattern), "resR": _jmesh(got)["R"], "count": str(k)})
+    # -- (b) all_syms of longer permutations and of mesh patterns of length 3-4 with special shadings; asked twice,
+    #        and again after the object was transformed and searched with
+    for _ in range(50 * scale):
+        if rnd.random() < 0.4:
+            P = Perm(special_perm(rnd, rnd.randint(5, 9)))
+            obj, jm = P, {"p": list(P), "R": []}
+            as_j = lambda o: {"p": list(o), "R": []}
+        else:
+            n = rnd.choice([3, 3, 4])
+            obj = MeshPatt(Perm(util.rand_perm(rnd, n)), special_shading(rnd, n))
+            jm = _jmesh(obj)
+            as_j = _jmesh
+            # every operation on the structurally special shadings (single corner, full border row / column, ...)
+            for name, kk in (("reverse", 0), ("complement", 0), ("inverse", 0), ("flip_horizontal", 0), ("flip_vertical", 0),
+                             ("flip_diagonal", 0), ("rotate", 1), ("rotate", 2), ("rotate", 3), ("rotate", -1)):
+                got = apply_obj(obj, name, kk)
+                ev.append(dict(jm, op="Sym", name=name, k=kk, resp=list(got.pattern), resR=_jmesh(got)["R"]))
+        ev.append(dict(jm, op="Orbit", res=[as_j(o) for o in obj.all_syms()]))
+        obj.rotate(3).inverse()
+        Perm(util.rand_perm(rnd, 6)).contains(obj)
+        ev.append(dict(jm, op="Orbit", res=[as_j(o) for o in obj.all_syms()], again=True))
+    # -- (c) the set helpers on larger sets, in every container form; duplicates; the empty collection
+    helpers = [("reverse", 0, sy.reverse_set), ("complement", 0, sy.complement_set), ("inverse", 0, sy.inverse_set),
+               ("flip_antidiagonal", 0, sy.antidiagonal_set), ("rotate", 1, sy.rotate_90_clockwise_set),
+               ("rotate", 2, sy.rotate_180_clockwise_set), ("rotate", 3, sy.rotate_270_clockwise_set)]
+    for i in range(60 * scale):
+        size = rnd.choice([0, 1, 2, 2, 3, 4])
+        S = []
+        while len(S) < size:
+            x = util.rand_perm(rnd, rnd.choice([1, 2, 3, 4, 4, 5, 5, 6]))
+            if x not in S:
+                S.append(x)
+        PS = [Perm(x) for x in S]
+        jS = [list(x) for x in S]
+        fname, form = COLLECTION_FORMS[i % len(COLLECTION_FORMS)]
+        ev.append({"op": "SetOrbit", "S": jS, "strict": True, "form": fname,
+                   "res": [[list(x) for x in T] for T in sy.all_symmetry_sets(form(PS))]})
+        fname, form = rnd.choice(COLLECTION_FORMS)
+        ev.append({"op": "LexMin", "S": jS, "form": fname, "res": [list(x) for x in sy.lex_min(form(PS))]})
+        name, k, fn = rnd.choice(helpers)
+        fname, form = rnd.choice(COLLECTION_FORMS)
+        ev.append({"op": "SetImage", "name": name, "k": k, "S": jS, "form": fname, "res": [list(x) for x in fn(form(PS))]})
+        if PS:
+            dup = PS + [Perm(tuple(PS[0])), PS[-1]]
+            rnd.shuffle(dup)
+            ev.append({"op": "SetOrbit", "S": [list(x) for x in dup], "strict": False, "form": "list with repeated elements",
+                       "res": [[list(x) for x in T] for T in sy.all_symmetry_sets(iter(dup))]})
+            ev.append({"op": "SetImage", "name": name, "k": k, "S": [list(x) for x in dup], "form": "repeated", "res": [list(x) for x in fn(iter(dup))]})
+            # the same representative from every member of the orbit, handed over as a one-shot iterable
+            T = rnd.choice(sorted(sy.all_symmetry_sets(PS)))
+            ev.append({"op": "LexMin", "S": [list(x) for x in T], "form": "member of the orbit", "res": [list(x) for x in sy.lex_min(x for x in T)]})
+    # -- (c') the helpers return lazy objects: several alive at once over the same collection, consumed alternately
+    for _ in range(25 * scale):
+        PS = [Perm(util.rand_perm(rnd, rnd.randint(2, 6))) for _ in range(rnd.randint(2, 4))]
+        jS = [list(x) for x in PS]
+        chosen = rnd.sample(helpers, 3)
+        gens = [(name, k, iter(fn(PS)), []) for name, k, fn in chosen]
+        live = list(gens)
+        while live:
+            g = rnd.choice(live)
+            try:
+                g[3].append(list(next(g[2])))
+            except StopIteration:
+                live.remove(g)
+            if rnd.random() < 0.3:                       # other calls in between
+                sy.lex_min(PS)
+                PS[0].all_syms()
+        for name, k, _, got in gens:
+            ev.append({"op": "SetImage", "name": name, "k": k, "S": jS, "form": "interleaved lazy consumption", "res": got})
+    # -- (d) equivariance on longer permutations, with history: objects are searched with before they are
+    #        transformed, images are transformed again, and the originals are asked again afterwards
+    for _ in range(70 * scale):
+        q = special_perm(rnd, rnd.randint(6, 9))
+        classical = rnd.random() < 0.5
+        k = rnd.choice([3, 4, 4, 5]) if classical else rnd.choice([2, 3, 3, 4])
+        pos = sorted(rnd.sample(range(len(q)), k))
+        p = _std([q[i] for i in pos]) if rnd.random() < 0.75 else util.rand_perm(rnd, k)
+        R = [] if classical else [c for c in special_shading(rnd, k)][:rnd.randint(0, 4)]
+        Q = Perm(q)
+        M = Perm(p) if classical else MeshPatt(Perm(p), R)
+        base = {"op": "Equiv", "p": list(p), "R": [list(c) for c in R], "q": list(q)}
+        c0 = Q.contains(M)                               # the pattern object has bound its search table
+        names = names_perm if classical else names_both
+        curQ, curM, trail = Q, M, []
+        for _ in range(rnd.randint(2, 3)):
+            name, kk = rnd.choice(names), rnd.randint(-9, 9)
+            curQ, curM = apply_obj(curQ, name, kk), apply_obj(curM, name, kk)
+            trail.append("%s(%d)" % (name, kk) if name == "rotate" else name)
+            ev.append(dict(base, before=c0, after=curQ.contains(curM), trail=list(trail)))
+            ev.append(dict(base, before=Q.contains(M), after=curQ.contains(curM), trail=list(trail) + ["asked again"]))
+        if classical:                                    # the images of a used object, as patterns of its own images
+            for img in M.all_syms():
+                ev.append({"op": "Equiv", "p": list(img), "R": [], "q": list(img), "before": img.contains(img), "after": img in img})
+    return ev
+
+
+def special_perm(rnd, n):
+    kind = rnd.choice(["id", "dec", "layered", "skew", "random", "random", "random"])
+    if kind == "id":
+        return tuple(range(n))
+    if kind == "dec":
+        return tuple(range(n - 1, -1, -1))
+    if kind in ("layered", "skew"):
+        out, start = [], 0
+        while start < n:
+            size = rnd.randint(1, min(4, n - start))
+            out.extend(range(start + size - 1, start - 1, -1))
+            start += size
+        return tuple(out) if kind == "layered" else tuple(n - 1 - v for v in out)
+    return util.rand_perm(rnd, n)
+
+
+def reexecute(ev):
+    """The recorded call of a trace event made again on the current code (container forms are not reproduced:
+    collections are handed over as one-shot iterators)."""
+    ev = dict(ev)
+    op = ev["op"]
+    obj = (lambda: MeshPatt(Perm(ev["p"]), [tuple(c) for c in ev["R"]]) if ev["R"] else Perm(ev["p"]))
+    as_j = lambda o: _jmesh(o) if isinstance(o, MeshPatt) else {"p": list(o), "R": []}
+    if op == "Sym":
+        k = int(ev["count"]) if "count" in ev else ev["k"]
+        o = obj() if ev["R"] or ev["name"] not in ("flip_antidiagonal", "reverse_complement") else Perm(ev["p"])
+        got = as_j(apply_obj(o, ev["name"], k))
+        ev["resp"], ev["resR"] = got["p"], got["R"]
+    elif op == "Orbit":
+        ev["res"] = [as_j(o) for o in obj().all_syms()]
+    elif op in ("SetOrbit", "LexMin", "SetImage"):
+        S = iter([Perm(x) for x in ev["S"]])
+        if op == "SetOrbit":
+            ev["res"] = [[list(x) for x in T] for T in sy.all_symmetry_sets(S)]
+        elif op == "LexMin":
+            ev["res"] = [list(x) for x in sy.lex_min(S)]
+        else:
+            fn = getattr(sy, ROT_SET[ev["k"] % 4] if ev["name"] == "rotate" else SET_FUN[ev["name"]])
+            ev["res"] = [list(x) for x in fn(S)]
+    elif op == "Equiv":
+        Q, M = Perm(ev["q"]), obj()
+        ev["before"] = Q.contains(M)
+        for step in [t for t in ev.get("trail", []) if t != "asked again"]:
+            name, _, arg = step.partition("(")
+            k = int(arg[:-1]) if arg else 0
+            Q, M = apply_obj(Q, name, k), apply_obj(M, name, k)
+        ev["after"] = Q.contains(M)
+    return ev
 
 
 def replay(ctx, path):
@@ -226,6 +485,16 @@ def replay(ctx, path):
         v = util.validate_trace(ctx, "Trace_C04", events, constants=tc)
         if v["verdict"]:
             print("VIOLATION property=C04 replay=%s" % path)
+            return 1
+        print("replay: case passes on the current tree")
+        return 0
+    if case["kind"] == "trace-event":
+        events = [reexecute(case["event"])]
+        tc = {"MaxPerm": 1, "MaxMesh": 1, "SetMaxLen": 1, "SetMaxSize": 1, "EqMaxPerm": 1, "Mode": '"trace"', "Shard": 0, "NShards": 1}
+        v = util.validate_trace(ctx, "Trace_C04", events, constants=tc)
+        if v["verdict"]:
+            print("VIOLATION property=C04 replay=%s" % path)
+            print("  still failing: %s on %s" % (v["verdict"], events[0]))
             return 1
         print("replay: case passes on the current tree")
         return 0
